@@ -36,7 +36,7 @@ def site_problems(info):
             why.append("source not indexed (%s: %s)" % r["src"])
         if any(a != "map" for a in r["adaptors"]):
             why.append("adaptors %s" % r["adaptors"])
-        if r["sink"][0] != "collect_vec":
+        if r["sink"][0] not in ("collect_vec", "collect_result_vec"):
             why.append("sink %s %s" % r["sink"])
         if not r["post"] or any(p not in ("seq_for", "seq_iter", "returned") for p in r["post"]):
             why.append("result consumed by %s" % r["post"])
@@ -49,6 +49,15 @@ def site_problems(info):
     want = ["betweenness_centrality", "closeness_centrality", "all_pairs", "multi_source"]
     if fns != want:
         out.append("functions with a rayon call site are %s, expected %s" % (fns, want))
+    # which region each function uses (C07_par_site_shapes): the centrality loops collect into a Vec, all_pairs /
+    # multi_source collect Result items into Result<Vec<_>, Error> (repair of F22) - what Model/ParFns.v transcribes
+    want_sink = {"betweenness_centrality": "collect_vec", "closeness_centrality": "collect_vec",
+                 "all_pairs": "collect_result_vec", "multi_source": "collect_result_vec"}
+    for r in info.get("sites", []):
+        if r["fn"] in want_sink and r["sink"][0] in ("collect_vec", "collect_result_vec") \
+                and r["sink"][0] != want_sink[r["fn"]]:
+            out.append("rayon call site %s:%s (%s) collects with `%s %s` but Model/ParFns.v transcribes `%s` for it"
+                       % (r["file"], r["line"], r["fn"], r["sink"][0], r["sink"][1], want_sink[r["fn"]]))
     if info.get("unsafe"):
         out.append("unsafe code in the crate: %s" % info["unsafe"][:5])
     if info.get("interior"):
@@ -69,7 +78,8 @@ class ParProp(props.BaseProp):
     trusted_extra = [
         "rayon's implementation of the indexed collect, work stealing and memory ordering are NOT verified: "
         "modelled by Model/Par.v (schedule = order of execution of the work items) and Model/ParFns.v (failing items: "
-        "rayon::join re-raises its first closure's panic) and probed per run",
+        "rayon::join re-raises its first closure's panic; collect into Result keeps the error of the erring item that ran "
+        "first) and probed per run",
         "tools/gen_parsites.py (tokenizer-level scan of the crate for rayon call sites, unsafe and interior mutability)",
         "that the closures passed to rayon are the pure functions of (&Graph, item) transcribed in Model/ParFns.v is "
         "supported by the source scan, the C04/C05/C06 correspondence of the per-source models and bit-for-bit "
@@ -78,7 +88,11 @@ class ParProp(props.BaseProp):
     rule = ("graph cases: random directed / undirected graphs with threshold+1 .. 60 nodes (threshold = the extracted "
             "`number_of_nodes() > K`, currently 20), node names inserted in shuffled order, edge density 1.2-4 edges "
             "per node, weights unweighted / dyadic (k/8) / non-dyadic (0.1*k, so that the order of a float sum would "
-            "show) / small integers with many ties; on each graph all_pairs (random cutoff / first_only / with_paths), "
+            "show) / small integers with many ties; every eighth graph (separate PRNG stream) is re-weighted with "
+            "integers 1..3 of which about one in 12 is NEGATED, and only the three dijkstra.rs functions are called on "
+            "it, weighted: the per-source search returns Err(ContradictoryPaths) from some sources, and all_pairs / "
+            "multi_source must return that Err (F22: they panicked) identically under every pool size and equal to "
+            "the serial per-source reference, involving the empty vector; on each (other) graph all_pairs (random cutoff / first_only / with_paths), "
             "multi_source (random source subset), get_all_shortest_paths_involving, betweenness_centrality and "
             "closeness_centrality (random flags) are each run inside ThreadPool::install for pool sizes "
             "1,2,3,4,8,16 x 2 repetitions, once on the global pool, and against a serial reference assembled from "
@@ -88,7 +102,11 @@ class ParProp(props.BaseProp):
             "(Run/RunPar.v), which must reproduce the collected vector and accept the schedule as a permutation; the "
             "same probe then runs the region with FAILING items (item i panics with payload i iff xs[i] is divisible "
             "by 7, low indices made slow) and the re-raised payload must be the lowest failing index, which is what "
-            "the model's region (gather_par under the reversed schedule, run_plan on a right-first plan) reports. "
+            "the model's region (gather_par under the reversed schedule, run_plan on a right-first plan) reports; and "
+            "with items that RETURN Err(i) (same rule), collected into Result<Vec<_>, E> like all_pairs / multi_source: the "
+            "index whose error rayon kept is reported and must be admitted by the model's gather_result_par (it is an erring "
+            "item and the region returns an error when that item runs first; Ok iff no item errs, with the vector map f "
+            "xs), the serial collect must keep the lowest erring index (observations 64 / 65). "
             "non-trivial = graph above the threshold whose result has > 100 words, or a probe with >= 21 items; "
             "distinct = distinct case text. This part is exploration (testing), not proof.")
 
@@ -97,7 +115,7 @@ class ParProp(props.BaseProp):
         return max(ts) if ts else 20
 
     # ------------------------------------------------------------------ generation
-    def gen_graph(self, r, idx, big):
+    def gen_graph(self, r, idx, big, neg=None):
         thr = self.threshold()
         n = thr + 1 + r.below(max(1, 60 - thr)) if not big else 61 + r.below(60)
         if r.chance(1, 12):
@@ -131,6 +149,21 @@ class ParProp(props.BaseProp):
                 w = float(1 + r.below(3))
             out.append((u, v, bits(w)))
         weighted = wmode != "none"
+        if neg is not None:
+            # NEGATIVE-WEIGHT VARIANT (separate PRNG stream `neg`; the graph and the main stream stay as they were):
+            # integer weights 1..3, about one edge in 12 negated.  The per-source search then returns
+            # Err(ContradictoryPaths) from some sources; since the repair of F22 all_pairs / multi_source return
+            # that Err (they panicked) - under every pool size, equal to the serial per-source reference; involving
+            # returns the empty vector.  The centrality functions are not called on these graphs.
+            out_neg = [(u, v, bits(float((1 + neg.below(3)) * (-1 if neg.chance(1, 12) else 1)))) for (u, v, _) in out]
+            k = 1 + neg.below(n)
+            srcs = [neg.below(n) for _ in range(k)]
+            calls_neg = ["all_pairs 1 0 %s 0 1" % bits(0.0), "all_pairs 1 0 %s 0 0" % bits(0.0),
+                         "all_pairs 1 1 %s %d 1" % (bits(2.0 + neg.below(6)), int(neg.chance(1, 2))),
+                         "multi_source 1 %d %d %s" % (int(neg.chance(1, 3)), int(neg.chance(2, 3)),
+                                                      " ".join(map(str, srcs))),
+                         "multi_source 1 0 1 %d" % neg.below(n),
+                         "involving 1 %d" % neg.below(n)]
         calls = []
         wflag = lambda: int(weighted and r.chance(3, 4))  # noqa: E731
         cutoff = r.chance(1, 4)
@@ -151,15 +184,19 @@ class ParProp(props.BaseProp):
         calls.append("closeness %d %d" % (int(weighted), int(r.chance(1, 2))))
         if idx % 4 == 0:
             calls.append("hammer %d %d" % (int(weighted), 60))
+        if neg is not None:
+            # (the main stream has been consumed exactly as without the variant)
+            out, calls, wmode = out_neg, calls_neg, "neg"
         return {"kind": "graph", "directed": directed, "n": n, "names": names, "edges": out, "calls": calls,
                 "wmode": wmode}
 
     def gen(self, seed, n):
         r = gv.SplitMix(seed * 104729 + 7)
+        rneg = gv.SplitMix(seed * 15485863 + 22)
         cases = []
         n_graph = max(1, (n * 2) // 3)
         for i in range(n_graph):
-            c = self.gen_graph(r, i, big=(n > 200 and i % 10 == 9))
+            c = self.gen_graph(r, i, big=(n > 200 and i % 10 == 9), neg=(rneg if i % 8 == 3 else None))
             c["id"] = "p%d" % len(cases)
             cases.append(c)
         while len(cases) < n:
@@ -188,10 +225,10 @@ class ParProp(props.BaseProp):
 
     def to_coq(self, c):
         s = c.get("sched", [[], []])
-        return "PProbe %s %s %s" % (self._zl(c["xs"]), self._zl(s[0]), self._zl(s[1]))
+        return "PProbe %s %s %s %s" % (self._zl(c["xs"]), self._zl(s[0]), self._zl(s[1]), self._zl(c.get("kept", [])))
 
     def case_json(self, c):
-        d = {k: v for k, v in c.items() if k != "sched"}
+        d = {k: v for k, v in c.items() if k not in ("sched", "kept")}
         if "edges" in d:
             d["edges"] = [list(e) for e in d["edges"]]
         return d
@@ -199,6 +236,7 @@ class ParProp(props.BaseProp):
     def case_from_json(self, j):
         c = dict(j)
         c.pop("sched", None)
+        c.pop("kept", None)
         if "edges" in c:
             c["edges"] = [tuple(e) for e in c["edges"]]
         c.setdefault("id", "replay")
@@ -219,6 +257,8 @@ class ParProp(props.BaseProp):
                     for ob in impl.get(c["id"], []):
                         if ob[0] == 60:
                             c["sched"] = [list(ob[1][0]), list(ob[1][1])]
+                        if ob[0] == 65:
+                            c["kept"] = list(ob[1][0])
         return impl, errs
 
     def run_cases(self, cases, wd, tag="gen", build=True):
@@ -285,6 +325,22 @@ class ParProp(props.BaseProp):
                     if k != want_k:
                         msgs.append("rayon %s source with failing items: the region re-raised the panic of item %d, "
                                     "the serial loop (and the model) fail at item %d" % (which, k, want_k))
+            # items that RETURN an error, collected into Result<Vec<_>, E> (gather_result_par in Model/ParFns.v): the
+            # error kept is that of SOME erring item (rayon: not deterministic which), Ok iff no item errs; the
+            # serial collect keeps the lowest erring index
+            if 65 not in by:
+                msgs.append("probe produced no Result-collect observation")
+            else:
+                erring = [i for i, x in enumerate(c["xs"]) if x % 7 == 0]
+                e_vec, e_range, e_serial = by[65][1][0]
+                for which, e in (("Vec", e_vec), ("Range", e_range)):
+                    if (e == -1) != (not erring) or (e != -1 and e not in erring):
+                        msgs.append("rayon %s source, items returning Result: collect::<Result<Vec<_>,_>>() returned %s "
+                                    "but the erring items are %s" % (which, "Ok" if e == -1 else "the error of item %d" % e,
+                                                                     erring[:10]))
+                if e_serial != (erring[0] if erring else -1):
+                    msgs.append("serial collect::<Result<Vec<_>,_>>() returned item %d's error, lowest erring index is %s"
+                                % (e_serial, erring[:1]))
             return msgs
         ncalls = len([x for x in c["calls"] if not x.startswith("hammer")])
         rows = by[50][1] if 50 in by else []
@@ -374,35 +430,54 @@ C07.manifest = {
             "PART 2, PER FUNCTION (Model/ParFns.v, Proofs/ParFnsOk.v): BOTH arms of `match parallel` of multi_source, "
             "all_pairs (all_pairs_iter / all_pairs_par_iter), get_all_shortest_paths_involving, betweenness_centrality "
             "and closeness_centrality are transcribed on top of the per-source functions of the algorithm models "
-            "(Model/Dijkstra.v, Brandes.v, Closeness.v), with the arm and the schedule as arguments. For every graph "
-            "state, every argument tuple and EVERY schedule the parallel arm returns exactly the outcome of the serial "
-            "arm - Ok values, Err kinds and panics alike (C07_multi_source_/all_pairs_/involving_/betweenness_/"
-            "closeness_parallel_eq_serial; closeness also in the form `WF g -> schedule of 0..n-1`), and for every "
-            "thread count, through the `number_of_nodes() > 20 && current_num_threads() > 1` switch, the function "
-            "equals the algorithm model that the correspondence checks of C04 / C05 / C06 tie to the code "
-            "(C07_*_sched_unobservable). The proofs never unfold the per-source functions nor the combine functions "
+            "(Model/Dijkstra.v, Brandes.v, Closeness.v), with the arm and the schedule as arguments. For every "
+            "argument tuple and EVERY schedule the parallel arm returns exactly the outcome of the serial arm - Ok "
+            "values, Err kinds and panics alike - and for every thread count, through the `number_of_nodes() > 20 && "
+            "current_num_threads() > 1` switch, the function equals the algorithm model that the correspondence checks "
+            "of C04 / C05 / C06 tie to the code (C07_*_parallel_eq_serial, C07_*_sched_unobservable): for betweenness / "
+            "closeness on every graph state (closeness also in the form `WF g -> schedule of 0..n-1`); for multi_source, "
+            "all_pairs, get_all_shortest_paths_involving on every state with a coherent adjacency (wf_adj; multi_source: "
+            "and coherent name indexes), in particular every WF = every reachable state (C07_multi_source_/all_pairs_"
+            "parallel_eq_serial_WF), for ANY weights (negative ones included), names, options and cutoff - and on "
+            "EVERY graph state as far as success and the Ok value are concerned (C07_multi_source_ok_any_state, "
+            "C07_all_pairs_ok_any_state). Why the split: since the repair of F22 the closures of all_pairs / "
+            "multi_source RETURN the per-source Result and the region is `collect::<Result<Vec<_>, Error>>()`; rayon "
+            "keeps the error of the erring item that ran first and starts no further item (`If there are multiple "
+            "errors, the one returned is not deterministic`), the serial collect keeps the error of the lowest index. "
+            "Model/ParFns.v transcribes that region (gather_result_par; rayon 1.12 src/result.rs); "
+            "C07_result_region: success and the Ok value never depend on the schedule, a failure is that of SOME "
+            "failing item, and the region equals the serial collect as soon as the failing items fail alike - which "
+            "they do: the per-source search neither panics nor runs out of fuel on a coherent adjacency, the ONLY Err "
+            "it can return is ContradictoryPaths (Proofs/DijkstraErrKind.v, every graph state), and multi_source has "
+            "checked the names up front, so NodeNotFound is excluded (C07_multi_source_items_fail_alike, "
+            "C07_all_pairs_items_fail_alike). On an incoherent state one item could panic while another returns Err; "
+            "the real arms could then differ too (Example result_region_keeps_some_error), so the full equalities are "
+            "no longer claimed there. The proofs never unfold the per-source functions nor the combine functions "
             "(accumulate_betweenness, HashMap insert): the fold order, hence the value, is the same in ANY number "
-            "structure, associative or not (C07_loop_shape_any_combine: combine universally quantified). Failing work "
-            "items (`.unwrap()` inside the closures): a work item is a function into outcomes; the region fails with "
+            "structure, associative or not (C07_loop_shape_any_combine: combine universally quantified). Work items "
+            "that PANIC (`.unwrap()` / indexing inside the closures; betweenness, closeness): the region fails with "
             "the failure of the LOWEST failing index, which is rayon::join's documented rule (`the first closure's "
             "panic wins`; a split is join(lower, upper), a leaf runs in index order) - C07_region_plan_semantics proves "
             "it for every fork-join plan, C07_region_with_failing_items for every schedule - and is what the serial loop "
-            "does. Without that rule (`the failing item executed first wins`, C07_pessimistic_region) success and the "
-            "value never depend on the schedule and the arms still agree whenever the failing items fail alike: "
-            "proved for all_pairs / involving on every well-formed adjacency (the only item failure is the unwrap at "
-            "dijkstra.rs:172: C07_all_pairs_pessimistic, C07_involving_pessimistic), for betweenness always "
-            "(C07_betweenness_pessimistic), for multi_source / closeness under the stated fail_alike hypothesis, which "
-            "holds when the per-source calls succeed (C07_multi_source_items_ok, from C04_model_single_source_names). "
+            "does. Without that rule (`the failing item executed first wins` for every kind of failure, "
+            "C07_pessimistic_region) the same conclusions hold under the same hypotheses (C07_all_pairs_pessimistic, "
+            "C07_involving_pessimistic, C07_multi_source_pessimistic_wf - no hypothesis on weights, names or cutoff is "
+            "left -, C07_betweenness_pessimistic always, closeness under its fail_alike hypothesis). "
             "The hypotheses of the region model are re-extracted from the current source tree on every run "
             "(tools/gen_parsites.py -> Gen/ParSites.v) and re-proved by vm_compute (C07_par_sites_ok, "
             "C07_par_sites_modelled): exactly the four sites betweenness_centrality, closeness_centrality, all_pairs (via "
-            "all_pairs_par_iter), multi_source; indexed source, adaptors = {map}, collect into Vec, sequential "
+            "all_pairs_par_iter), multi_source; indexed source, adaptors = {map}, collect into Vec (the two centrality "
+            "loops) resp. into Result<Vec<_>, Error> (all_pairs, multi_source) - C07_par_site_shapes pins which function "
+            "uses which region, so the transcription and the source cannot part ways silently -, sequential "
             "consumption, no Mutex/atomic/RefCell/unsafe anywhere in the crate, thresholds <= 20.",
     "note": "NOT proved: rayon's implementation of the indexed collect and of join, real work stealing and memory "
             "ordering (modelled by run_par / run_plan; per-run probes: the schedule rayon really used is recorded and "
             "the Coq model must reproduce the collected vector from it, and - observation 63 - regions with FAILING "
             "items, low indices made slow, must re-raise the panic of the lowest failing index, as the model's region "
-            "says, for pool sizes 1..16 and Vec / Range sources); that the Rust closures are the pure functions of "
+            "says, for pool sizes 1..16 and Vec / Range sources; observations 64/65 - regions whose items RETURN "
+            "Err(i), collected into Result<Vec<_>, E>: the index whose error rayon kept must be admitted by "
+            "gather_result_par; in the quick run rayon kept an error other than the lowest erring index in about half "
+            "of the probes with errors, i.e. the non-determinism the model allows is real); that the Rust closures are the pure functions of "
             "(&Graph, item) the models say - supported by the source scan (no interior mutability, no unsafe => shared "
             "&Graph is race-free by Rust's type system) and by the correspondence checks of C04/C05/C06 on the "
             "per-source models. The arms are hand transcriptions of dijkstra.rs:100-399,606, betweenness.rs:50-74, "
@@ -417,7 +492,9 @@ C07.manifest = {
             "8 threads hammering one shared &Graph with read-only calls while the parallel functions run. A source "
             "change that leaves the modelled fragment (reduce/sum/fold/for_each/par_bridge, unindexed source, collect "
             "into a map, a Mutex) is reported as VIOLATION ... no-failing-input-found unless the exploration finds "
-            "differing bits. Axioms: none (Closed under the global context) for all 28 pinned theorems.",
+            "differing bits. Since F22: every eighth exploration graph carries negative weights and is run through the three "
+            "dijkstra.rs functions (Err(ContradictoryPaths) / [] identical under every pool size and equal to the serial "
+            "per-source reference). Axioms: none (Closed under the global context) for all 37 pinned theorems.",
     "technique": "Coq proof about a schedule / fork-join model of the rayon fragment and about both transcribed arms of "
                  "the five functions + source-extracted hypotheses re-proved per run (vm_compute) + schedule-probe and "
                  "panic-probe correspondence + bit-for-bit exploration on the implementation",
